@@ -1873,6 +1873,23 @@ where
     })
 }
 
+/// Verification hook (guard: `--cfg p3_recursion_verif`): read-only snapshot of the source
+/// program held by the builder, used by external model-checking harnesses to interpret
+/// circuits built by library code.
+#[cfg(p3_recursion_verif)]
+impl<F> CircuitBuilder<F>
+where
+    F: Field + PrimeCharacteristicRing + Eq + Hash,
+{
+    /// Returns the expression DAG nodes (in creation order) and the pending connects.
+    pub fn verif_snapshot(&self) -> (Vec<crate::expr::Expr<F>>, Vec<(ExprId, ExprId)>) {
+        (
+            self.expr_builder.graph().nodes().to_vec(),
+            self.expr_builder.pending_connects().to_vec(),
+        )
+    }
+}
+
 #[cfg(test)]
 mod tests {
 
